@@ -59,7 +59,7 @@ class RefScheduler:
 class Prop:
     id = "C28"
     level = "exploration"
-    engine = "VT"
+    engine = "VT (+TH: one scenario in 250 has two controlled threads driving the same scheduler)"
     quick_runs = 250000
     thorough_runs = 3000000
     rule = ("seeded histories of schedule_absolute/schedule_relative/schedule calls (past, present and future due times, ties), optionally a run of 101-160 strictly advancing actions, actions that "
@@ -67,7 +67,10 @@ class Prop:
             "VirtualTimeScheduler, TestScheduler and HistoricalScheduler (datetime clock); invocation order, clock at every invocation, "
             "clock after every driver call, raised range errors and never-run cancelled actions are compared with an independent reference "
             "scheduler (heap ordered by (due, insertion seq)). Distinct = (clock kind, driver shape, invocation log); non-trivial = at least "
-            "three actions ran and at least one tie or nested schedule occurred.")
+            "three actions ran and at least one tie or nested schedule occurred. One scenario in 250 runs under the TH engine: 2-5 pre-scheduled actions "
+            "(some scheduling a further one), two controlled threads calling start() / advance_to() on the same scheduler with 1-3 forced pre-emptions "
+            "(or a single-pre-emption sweep): no action twice or at once, due-time order, clock never behind a due time nor backwards, and "
+            "nothing lost when both only call start().")
     assumptions = ["fewer than 100 actions share an instant (the anti-spin clock bump is C29's subject)", "zero-length advances are not generated (advance_to(now) is documented as a no-op)",
                    "TestScheduler.start() is modelled with its three built-in create/subscribe/dispose actions at 100/200/1000"]
     stubs = []
@@ -83,6 +86,8 @@ class Prop:
         return a
 
     def generate(self, rng, tier):
+        if rng.random() < 0.004:
+            return self.gen_th(rng)
         ids = []
         driver = []
         for _ in range(rng.randrange(1, 7)):
@@ -232,7 +237,117 @@ class Prop:
             clocks.append(ref.clock)
         return ref.log, clocks, errors
 
+    # ------------------------------------------------------------------ two threads driving one scheduler (TH engine)
+    def gen_th(self, rng):
+        from simlib import th
+        n = rng.randrange(2, 6)
+        acts = [{"id": i, "t": rng.choice([0, 5, 10, 10, 20, 20, 50]), "child": rng.choice([None, None, 0, 5, 30])} for i in range(n)]
+        drv = lambda: [rng.choice([["start"], ["start"], ["advance_to", rng.choice([10, 20, 60])]]) for _ in range(rng.choice([1, 1, 2]))]  # noqa: E731
+        return {"mode": "th", "clock": rng.choice(["vts", "historical"]), "acts": acts, "drivers": [drv(), drv()],
+                "sched": th.gen_sched(rng, ks=(1, 2, 2, 3), sweep_p=0.1, opcode_p=0.3)}
+
+    def exec_th(self, sc):
+        from datetime import timedelta
+        from simlib import th
+        if sc["sched"].get("sweep") and "cps" not in sc:
+            return th.sweep(self.exec_th, sc)
+        out = Outcome()
+        holder = {}
+
+        def factory():
+            st = holder["st"] = {"log": [], "inside": 0, "overlap": False, "done": 0}
+
+            def body(sim, shim):
+                from reactivex.internal.exceptions import ArgumentOutOfRangeException
+                from reactivex.scheduler import HistoricalScheduler, VirtualTimeScheduler
+                hist = sc["clock"] == "historical"
+                s = HistoricalScheduler(vt.UTC0) if hist else VirtualTimeScheduler(0.0)
+                now = (lambda: (s.clock - vt.UTC0).total_seconds()) if hist else (lambda: float(s.clock))
+                due_of = (lambda t: vt.UTC0 + timedelta(seconds=t)) if hist else float
+                nid = [len(sc["acts"])]
+
+                def mk(aid, due, child):
+                    def action(sch, state=None):
+                        st["inside"] += 1
+                        if st["inside"] > 1:
+                            st["overlap"] = True
+                        st["log"].append((sim.tick(), aid, due, now(), sim.current.name))
+                        sim.yield_point("action.body")
+                        if child is not None:
+                            cid = nid[0]
+                            nid[0] += 1
+                            s.schedule_relative(timedelta(seconds=child) if hist else float(child), mk(cid, now() + child, None))
+                        st["inside"] -= 1
+                    return action
+
+                for a in sc["acts"]:
+                    s.schedule_absolute(due_of(a["t"]), mk(a["id"], float(a["t"]), a["child"]))
+                sim.mark()
+
+                def driver(ops_):
+                    def run():
+                        for op in ops_:
+                            if op[0] == "start":
+                                s.start()
+                            else:
+                                try:
+                                    s.advance_to(due_of(op[1]))
+                                except ArgumentOutOfRangeException:
+                                    pass  # the clock is already past the target (the other thread, or an earlier call, got there)
+                        st["done"] += 1
+                    return run
+
+                for i, ops_ in enumerate(sc["drivers"]):
+                    sim.spawn(driver(ops_), "drv%d" % i, "work")
+                st["now"] = now
+
+            return body
+
+        sim, cps = th.explore(sc, factory, out, focus=("virtualtimescheduler.py", "historicalscheduler.py"))
+        st = holder["st"]
+        log = st["log"]
+        out.digest = ("th", sc["clock"], repr(sc["acts"]), repr(sc["drivers"]), th.interleaving_digest(sim))
+        out.nontrivial = len(log) >= 2 and sim.faults["preempt"] > 0
+        out.probes["th:two_driver_threads"] += 1
+        desc = "two threads drive one %s: actions=%s drivers=%s cps=%s" % (sc["clock"], sc["acts"], sc["drivers"], cps)
+
+        def bad(rule, msg):
+            if not out.viol:
+                out.bad(rule, "%s: %s; runs (action, due, clock, thread): %s" % (desc, msg, [e[1:] for e in log]))
+
+        if sim.failure:
+            bad(sim.failure[0], sim.failure[1])
+        if sim.thread_errors:
+            bad("thread-exception", repr(sim.thread_errors[0]))
+        if st["overlap"]:
+            bad("overlap", "two actions ran at once")
+        ids = [e[1] for e in log]
+        if len(set(ids)) != len(ids):
+            bad("ran-twice", "an action ran twice")
+        clk = None
+        for seq, aid, due, c, tname in log:
+            if c < due - 1e-9:
+                bad("clock", "action %s ran at clock %s before its due time %s" % (aid, c, due))
+            if clk is not None and c < clk - 1e-9:
+                bad("clock", "the clock moved backwards (%s after %s)" % (c, clk))
+            clk = c
+        dues = [e[2] for e in log]
+        if any(b < a - 1e-9 for a, b in zip(dues, dues[1:])):
+            bad("order", "actions did not run in due-time order")
+        if not sim.failure and st["done"] == 2 and all(op[0] == "start" for d in sc["drivers"] for op in d):
+            expect = len(sc["acts"]) + sum(1 for a in sc["acts"] if a["child"] is not None)
+            if len(log) != expect:
+                bad("lost-action", "%d of %d actions ran although start() returned on both threads" % (len(log), expect))
+        if out.viol:
+            wsc = dict(sc)
+            wsc["cps"] = cps
+            out.witness = wsc
+        out.info = {"scenario": desc}
+        return out
+
     def execute(self, sc):
+        if sc.get("mode") == "th":
+            return self.exec_th(sc)
         out = Outcome()
         got = self.run_real(sc)
         want = self.run_ref(sc)
